@@ -7,7 +7,7 @@ import os
 
 import numpy as np
 
-from .. import gen_core, gen_ioapi, harness, snapshot
+from .. import gen_core, gen_ioapi, harness, readerfiles, snapshot
 from ..cli import digest
 
 PROP = 'C07'
@@ -21,6 +21,7 @@ RULE = ('random core files (all numeric dtypes + char, scalar variables, '
         'representable in the flavour (see assumptions); non-trivial = '
         'in-domain file with >= 1 variable; distinct = digest of the spec.')
 RULE += (" Variables are also created with sized type strings ('f8', 'i2', ...) and through values= with a missing_value attribute; a second save generation in another flavour; files with a second unlimited dimension (NETCDF4).")
+RULE += (" Every ninth source is the object one of the library's READERS returns for a valid image written by the independent codecs (CAMx memory-mapped and record readers, bpch1, bpch2, arlpackedbit, ffi1001) - conversion to netCDF is what the readers are mostly used for; byte order and bytes-vs-str of character attributes are encodings of the container, attribute names the HDF5 layer reserves (NAME, CLASS, ...) are not representable in the netCDF-4 flavours.")
 ASSUMPTIONS = [
     'classic-model flavours cannot hold int64/unsigned: such files are '
     'outside the domain there (must raise or round-trip)',
@@ -47,7 +48,9 @@ def ncases(tier):
 
 def gen(rng, idx, tier, seed):
     fmt = FORMATS[idx % 4]
-    if idx % 7 == 6:
+    if idx % 9 == 8:
+        fs = {'reader': readerfiles.gen_spec(rng, idx=idx // 9)}
+    elif idx % 7 == 6:
         fs = {'ioapi': gen_ioapi.gen_spec(rng, via='from_arrays')}
     else:
         dts = ['f4', 'f8', 'i2', 'i4']
@@ -88,6 +91,12 @@ def in_domain(spec, snap):
                     why.append('unmasked data equal the fill value in ' + k)
             except Exception:
                 pass
+    for k, a in snap.attrs.items():
+        if isinstance(a, np.ndarray) and a.dtype == object or not isinstance(
+                a, (str, bytes, int, float, np.generic, np.ndarray, list,
+                    tuple)):
+            # (the record readers list their open file handle as attribute)
+            why.append('global attribute %s holds a python object' % k)
     for u in unl:
         if not any(u in v.dims for v in snap.vars.values()):
             why.append('unlimited dimension %s used by no variable' % u)
@@ -97,14 +106,48 @@ def in_domain(spec, snap):
 
 
 def run(spec, res):
-    import PseudoNetCDF as pnc
-    from PseudoNetCDF.pncgen import pncgen
+    rdr = spec['file'].get('reader')
+    if rdr:
+        # the file saved is what a library reader returns for a valid image
+        # (conversion to netCDF is what the readers are mostly used for)
+        with harness.casedir() as d0:
+            f, status = readerfiles.open_reader(rdr, d0)
+            res.facet('reader:%s:%s' % (rdr['kind'], status.split(':')[0]))
+            if f is None:
+                res.note('reader-gave-no-file:' + status)
+                return
+            res.facet('source:reader')
+            return run_file(spec, res, f)
     if 'ioapi' in spec['file']:
         f = gen_ioapi.build(spec['file']['ioapi'])
     else:
         f = gen_core.build(spec['file']['core'])
+    return run_file(spec, res, f)
+
+
+RESERVED_HDF5 = ('NAME', 'CLASS', 'REFERENCE_LIST', 'DIMENSION_LIST')
+
+
+def strip_reserved(snap, fmt, res):
+    if fmt.startswith('NETCDF4'):
+        # the HDF5 layer keeps these attribute names for itself: they are
+        # not representable in the netCDF-4 flavours (the library warns and
+        # carries on); everything else must still come back
+        for k in RESERVED_HDF5:
+            if k in snap.attrs:
+                del snap.attrs[k]
+                res.note('hdf5-reserved-attribute-name:' + k)
+
+
+def run_file(spec, res, f):
+    import PseudoNetCDF as pnc
+    from PseudoNetCDF.pncgen import pncgen
     before = snapshot.snap_file(f)
     why = in_domain(spec, before)
+    if spec['file'].get('reader') and snapshot.wellformed(f):
+        # what the reader returned is not a file (C01's finding)
+        why.append('source is malformed')
+    strip_reserved(before, spec['format'], res)
     facets = ['fmt:' + spec['format'], 'via:' + spec['via'],
               'auto' if spec['auto'] else 'explicit',
               'complevel:%d' % spec['complevel']]
@@ -179,6 +222,7 @@ def run(spec, res):
                          spec['format'], spec['format2'], e),
                      excmsg=str(e)[:300], fmt=spec['format2'], gen2=True)
             return
+        strip_reserved(after, spec['format2'], res)
         problems = compare(after, after2, res)
         res.ev(digest([spec, 'gen2']), len(after.vars) > 0,
                ['gen2:' + spec['format2']])
@@ -189,9 +233,32 @@ def run(spec, res):
                      fmt=spec['format2'], problems=problems[:10], gen2=True)
 
 
+def _text(v):
+    # netCDF has one character type: a bytes attribute and the str of the
+    # same characters are the same thing on disk
+    if isinstance(v, (bytes, np.bytes_)):
+        try:
+            return v.decode('utf-8')
+        except Exception:
+            return v
+    return v
+
+
+def _native(vs):
+    # byte order is an encoding of the container (the CAMx readers hand out
+    # big-endian arrays, netCDF hands out native ones), not part of the value
+    dt = np.dtype(vs.dtype)
+    if dt.byteorder in '<>' and not dt.isnative:
+        nd = dt.newbyteorder('=')
+        return nd.str, np.asarray(vs.data).astype(nd)
+    return vs.dtype, vs.data
+
+
 def compare(before, after, res):
     if True:
         problems = []
+        before.attrs = type(before.attrs)(
+            (k, _text(v)) for k, v in before.attrs.items())
         if list(before.dims.items()) != list(after.dims.items()):
             problems.append('dimensions %s -> %s' % (list(before.dims.items()),
                                                      list(after.dims.items())))
@@ -209,9 +276,10 @@ def compare(before, after, res):
                 continue
             res.hook('oracle.compare')
             got = after.vars[k]
-            exp_attrs = dict(vs.attrs)
+            exp_attrs = dict((ak, _text(av)) for ak, av in vs.attrs.items())
             ign = ['_FillValue'] if vs.masked_type else []
+            ndt, ndata = _native(vs)
             problems += snapshot.check_var(
-                got, k, dims=vs.dims, data=vs.data, mask=vs.mask,
-                attrs=exp_attrs, dtype=vs.dtype, attr_ignore=ign)
+                got, k, dims=vs.dims, data=ndata, mask=vs.mask,
+                attrs=exp_attrs, dtype=ndt, attr_ignore=ign)
         return problems
